@@ -728,8 +728,11 @@ fn constant_variables(nodes: &[Node], x: &mut Expect) {
         if written.contains_key(&v.name.name) {
             continue; // never
         }
+        if var_has_constant(v) {
+            continue; // never: the variable is constant already (whatever the order of its attributes)
+        }
         x.may(st(&v.ty.loc()));
-        if elementary(&v.ty).is_some() && !var_has_constant(v) {
+        if elementary(&v.ty).is_some() {
             x.both(st(&v.ty.loc()));
         }
     }
@@ -785,6 +788,9 @@ fn immutable_variables(nodes: &[Node], x: &mut Expect) {
         };
         if nonctor_written.contains(name) {
             continue; // only: no write inside a non-constructor function
+        }
+        if var_has_constant(v) || var_has_immutable(v) {
+            continue; // never: constant / immutable already (whatever the order of its attributes)
         }
         x.may(st(&v.ty.loc()));
         // always: value-typed, not already constant/immutable, every constructor assignment a value;
@@ -1221,4 +1227,88 @@ pub fn assigned_in_constructor_body(su: &pt::SourceUnit, name: &str) -> bool {
         }
     }
     false
+}
+
+/// (smallest end, largest end) over the located constructs that start exactly at `off`: expressions,
+/// contract members (a function definition extends to the end of its body), top-level items, function names,
+/// data-location keywords
+pub fn extents_at(su: &pt::SourceUnit, off: usize) -> Option<(usize, usize)> {
+    let nodes = nodes_of_su(su);
+    let mut ends: Vec<usize> = vec![];
+    let mut add = |l: &pt::Loc, extra_end: Option<usize>| {
+        if st(l) == off {
+            let e = en(l);
+            ends.push(match extra_end {
+                Some(x) if x != usize::MAX && x > e => x,
+                _ => e,
+            });
+        }
+    };
+    let fn_parts = |f: &pt::FunctionDefinition, add: &mut dyn FnMut(&pt::Loc, Option<usize>)| {
+        add(&f.loc, f.body.as_ref().map(|b| en(&b.loc())));
+        if let Some(id) = &f.name {
+            add(&id.loc, None);
+        }
+        for (_, p) in &f.params {
+            if let Some(pt::Parameter { storage: Some(sl), .. }) = p {
+                add(&sl.loc(), None);
+            }
+        }
+    };
+    for n in &nodes {
+        match n {
+            Node::Expression(e) => match e {
+                E::StringLiteral(pieces) => {
+                    if let (Some(a), Some(b)) = (pieces.first(), pieces.last()) {
+                        add(&a.loc, Some(en(&b.loc)));
+                    }
+                }
+                e => add(&e.loc(), None),
+            },
+            Node::ContractPart(p) => match p {
+                pt::ContractPart::FunctionDefinition(f) => fn_parts(f, &mut add),
+                p => add(p.loc(), None),
+            },
+            Node::SourceUnitPart(p) => match p {
+                pt::SourceUnitPart::FunctionDefinition(f) => fn_parts(f, &mut add),
+                p => add(p.loc(), None),
+            },
+            _ => {}
+        }
+    }
+    let lo = ends.iter().cloned().filter(|e| *e != usize::MAX).min()?;
+    let hi = ends.iter().cloned().filter(|e| *e != usize::MAX).max()?;
+    Some((lo, hi))
+}
+
+/// declared mutability ("constant" / "immutable") of the state variable that a C08 report at `off` is about:
+/// the variable whose type starts at `off`, or the target of the plain assignment that starts at `off`
+pub fn declared_mutability_at(su: &pt::SourceUnit, off: usize) -> Option<&'static str> {
+    let nodes = nodes_of_su(su);
+    let cs = contracts(&nodes);
+    let vars = member_variables(&cs);
+    let of = |v: &pt::VariableDefinition| {
+        if var_has_constant(v) {
+            Some("constant")
+        } else if var_has_immutable(v) {
+            Some("immutable")
+        } else {
+            None
+        }
+    };
+    if let Some(v) = vars.iter().find(|v| st(&v.ty.loc()) == off) {
+        return of(v);
+    }
+    for e in exprs(&nodes) {
+        if let E::Assign(loc, l, _) = e {
+            if st(loc) == off {
+                if let E::Variable(id) = &**l {
+                    if let Some(v) = vars.iter().find(|v| v.name.name == id.name) {
+                        return of(v);
+                    }
+                }
+            }
+        }
+    }
+    None
 }
